@@ -77,15 +77,22 @@ let answer = function
 let op_of s =
   let n x = nat_of_int (int_of_string x) in
   match String.split_on_char ',' s with
-  | ["K"; i] -> OKey (n i)
-  | ["C"; i; a; b] -> OCons (n i, n a, n b)
-  | ["E"; i; k; v] -> OEph (n i, n k, n v)
-  | ["D"; i] -> ODrop (n i)
-  | ["G"] -> OGc
-  | ["O"; i] -> OOpenFile (n i)
-  | ["F"; i] -> OFileno (n i)
-  | ["P"; i; f] -> OPortOn (n i, n f)
-  | ["X"; i] -> OClose (n i)
+  | ["K"; i] -> [OKey (n i)]
+  | ["H"; i] -> [OKey (n i)]              (* a placeholder reserving an address (layout family): an ordinary fresh object *)
+  | ["C"; i; a; b] -> [OCons (n i, n a, n b)]
+  | ["E"; i; k; v] -> [OEph (n i, n k, n v)]
+  | ["D"; i] -> [ODrop (n i)]
+  | ["G"] -> [OGc]
+  | ["O"; i] -> [OOpenFile (n i)]
+  | ["F"; i] -> [OFileno (n i)]
+  | ["P"; i; f] -> [OPortOn (n i, n f)]
+  | ["X"; i] | ["XI"; i] | ["XO"; i] -> [OClose (n i)]     (* close-port / close-input-port / close-output-port *)
+  | ["W"; i; f] -> [OPortOn (n i, n f)]                   (* open-output-file-descriptor: the same count++ *)
+  | ["Q"; i; j] -> [OFileno (n i); OFileno (n j)]         (* open-pipe: two fresh descriptors, two fileno objects *)
+  | ["Y"; i] -> [OCloseFd (n i)]                          (* close-file-descriptor on a fileno object *)
+  | ["U"; i; f] -> [ODup (n i, n f)]                      (* duplicate-file-descriptor *)
+  | ["T"; a; b] | ["R"; a; b] -> [ODupTo (n a, n b)]      (* duplicate-file-descriptor-to / renumber-file-descriptor *)
+  | ["Z"; _; _] -> []                                     (* write through one port, read through another: no model state *)
   | _ -> failwith ("bad op " ^ s)
 
 (* fingerprint of a value, same rule as the Scheme side (harness/c16_hist.scm): depth-limited *)
@@ -107,6 +114,28 @@ let rec fp (h : heap) (d : int) (r : Model.ref) : string =
 
 let distinct l = List.length (List.sort_uniq compare l)
 
+(* is the descriptor of the owner in slot i still open for it?  a fileno object: its open flag; a port on a fileno:
+   port open and fileno open; a stream port: port open; "-" when the slot holds no owner *)
+let owner_state (st : state) (i : int) (r : Model.ref) : string option =
+  let h = st.hp in
+  match r with
+  | Imm -> None
+  | Ptr a ->
+    (match PositiveMap.find a h.objs with
+     | Some o ->
+       (match o.kind with
+        | KFileno (op, _, _, _) -> Some (string_of_int i ^ ":" ^ (if op then "o" else "c"))
+        | KPort (op, _, Some _) -> Some (string_of_int i ^ ":" ^ (if op then "o" else "c"))
+        | KPort (op, _, None) ->
+          let fop = (match o.strong with
+              | [_; _; Ptr f] -> (match PositiveMap.find f h.objs with
+                  | Some fo -> (match fo.kind with KFileno (b, _, _, _) -> b | _ -> false)
+                  | None -> false)
+              | _ -> false) in
+          Some (string_of_int i ^ ":" ^ (if op && fop then "o" else "c"))
+        | KPlain -> None)
+     | None -> None)
+
 let observe (st : state) : string =
   let h = st.hp in
   let eph = List.rev_map (fun e ->
@@ -118,18 +147,31 @@ let observe (st : state) : string =
         "e" ^ hex_of_addr e ^ "=" ^ (if o.brokenp then "1" else "0") ^ "," ^ key ^ "," ^ v) st.obs in
   let opened = int_of_z st.nextfd in
   let closed = distinct (List.map hex_of_z st.oslog) in
+  let own = List.concat (List.mapi (fun i r -> match owner_state st i r with Some x -> [x] | None -> []) st.slots) in
   String.concat ";" eph ^ "|fds=" ^ string_of_int (opened - closed) ^ "|closes=" ^ string_of_int (List.length st.oslog) ^ ":" ^ string_of_int closed
+  ^ "|own=" ^ String.concat "," own
 
 let hist nslots fuel ops =
   let st = ref (init (nat_of_int nslots) (nat_of_int_tr fuel)) in
   let out = ref [] in
+  let bad = ref None in
   (try
-     List.iter (fun o ->
-         match step o !st with
-         | None -> out := "ERRFUEL" :: !out; raise Exit
-         | Some s -> st := s; (match o with OGc -> out := observe s :: !out | _ -> ())) ops
+     List.iteri (fun k (raw, os) ->
+         (match String.split_on_char ',' raw with
+          | ["Z"; i; j] ->
+            let sl x = let x = int_of_string x in
+              match owner_state !st x (List.nth_opt !st.slots x |> Option.value ~default:Imm) with
+              | Some t -> String.sub t (String.length t - 1) 1 | None -> "-" in
+            out := ("Z" ^ sl i ^ sl j) :: !out
+          | _ -> ());
+         List.iter (fun o ->
+             match step o !st with
+             | None -> (match o with OGc -> out := "ERRFUEL" :: !out | _ -> bad := Some k); raise Exit
+             | Some s -> st := s; (match o with OGc -> out := observe s :: !out | _ -> ())) os) ops
    with Exit -> ());
-  "OK " ^ String.concat "/" (List.rev !out)
+  (match !bad with
+   | Some k -> "DOMAIN " ^ string_of_int k        (* op number k works on the number of a fileno that is already closed *)
+   | None -> "OK " ^ String.concat "/" (List.rev !out))
 
 let handle = function
   | ["gc"; fuel; hp; roots] ->
@@ -142,7 +184,7 @@ let handle = function
     let f = nat_of_int_tr (int_of_string fuel) in
     answer (gc_after_mark f f (heap_of hp) (mset_of marked) [])
   | ["hist"; nslots; fuel; ops] ->
-    hist (int_of_string nslots) (int_of_string fuel) (List.map op_of (String.split_on_char ';' ops))
+    hist (int_of_string nslots) (int_of_string fuel) (List.map (fun r -> (r, op_of r)) (String.split_on_char ';' ops))
   | f -> "ERR unknown request " ^ (match f with x :: _ -> x | [] -> "")
 
 let () = serve handle
